@@ -7,6 +7,22 @@
 
 namespace etl {
 
+namespace detail {
+
+template <typename T>
+[[nodiscard]] constexpr auto fmin_impl(T x, T y) noexcept -> T
+{
+    if (x != x) {
+        return y; // x is NaN
+    }
+    if (y != y) {
+        return x; // y is NaN
+    }
+    return etl::detail::gcem::min(x, y);
+}
+
+} // namespace detail
+
 /// \ingroup cmath
 /// @{
 
@@ -15,20 +31,20 @@ namespace etl {
 /// chosen)
 ///
 /// https://en.cppreference.com/w/cpp/numeric/math/fmin
-[[nodiscard]] constexpr auto fmin(float x, float y) noexcept -> float { return etl::detail::gcem::min(x, y); }
+[[nodiscard]] constexpr auto fmin(float x, float y) noexcept -> float { return etl::detail::fmin_impl(x, y); }
 
-[[nodiscard]] constexpr auto fminf(float x, float y) noexcept -> float { return etl::detail::gcem::min(x, y); }
+[[nodiscard]] constexpr auto fminf(float x, float y) noexcept -> float { return etl::detail::fmin_impl(x, y); }
 
-[[nodiscard]] constexpr auto fmin(double x, double y) noexcept -> double { return etl::detail::gcem::min(x, y); }
+[[nodiscard]] constexpr auto fmin(double x, double y) noexcept -> double { return etl::detail::fmin_impl(x, y); }
 
 [[nodiscard]] constexpr auto fmin(long double x, long double y) noexcept -> long double
 {
-    return etl::detail::gcem::min(x, y);
+    return etl::detail::fmin_impl(x, y);
 }
 
 [[nodiscard]] constexpr auto fminl(long double x, long double y) noexcept -> long double
 {
-    return etl::detail::gcem::min(x, y);
+    return etl::detail::fmin_impl(x, y);
 }
 
 /// @}
